@@ -48,6 +48,9 @@ type Ctx struct {
 	Deadline    time.Time `json:"-"`
 	Tier        string    `json:"-"`
 	sub         *int64
+	// where this worker is (recorded into every violation so that a violation that depends on
+	// what the process did before can be replayed as a sequence of units)
+	curUnit, shard, nshards int
 }
 
 // Tick marks the start of the next case inside the current unit, so that a crash of the
@@ -87,6 +90,9 @@ func (c *Ctx) Violate(v Violation) {
 		return
 	}
 	c.perSig[v.Sig]++
+	if v.Case != nil && c.nshards > 0 {
+		v.Case["_unit"], v.Case["_shard"], v.Case["_nshards"], v.Case["_tier"] = c.curUnit, c.shard, c.nshards, c.Tier
+	}
 	c.Violations = append(c.Violations, v)
 }
 
@@ -202,6 +208,7 @@ func WorkerMain(args []string) int {
 		ctx.Deadline = time.Unix(dl, 0)
 	}
 	ctx.sub = &progArr[1]
+	ctx.shard, ctx.nshards = shard, nshards
 	lastFlush := time.Now()
 	flush := func(next int, done, deadline bool) {
 		enc.Encode(flushMsg{Ctx: ctx, Next: next, Done: done, Deadline: deadline})
@@ -210,6 +217,7 @@ func WorkerMain(args []string) int {
 		ctx = newCtx()
 		ctx.Deadline, ctx.Tier = dlKeep, tierKeep
 		ctx.sub = &progArr[1]
+		ctx.shard, ctx.nshards = shard, nshards
 		lastFlush = time.Now()
 	}
 	start := from
@@ -227,6 +235,7 @@ func WorkerMain(args []string) int {
 		}
 		progArr[1] = 0
 		atomic.StoreInt64(prog, int64(i))
+		ctx.curUnit = i
 		job.RunUnit(i, ctx)
 		if time.Since(lastFlush) > 700*time.Millisecond {
 			atomic.StoreInt64(prog, -1)
@@ -617,12 +626,36 @@ func finish(ck *Check, tier string, seed, nUnits, nWorkers int, startT time.Time
 					}
 				}
 			}
+			seq := false
+			if !ok {
+				// the case alone does not reproduce in a fresh process: it may depend on what the
+				// worker did before it. Re-run the worker's units up to that unit, twice, in fresh
+				// processes; if the same signature shows up both times, that sequence is the replay.
+				if _, has := v.Case["_unit"]; has {
+					v.Case["sequence_replay"] = true
+					b, _ = json.MarshalIndent(v.Case, "", " ")
+					os.WriteFile(file, b, 0644)
+					ok = true
+					for k := 0; k < 2; k++ {
+						out, _ := exec.Command(os.Args[0], "-replay1", file).CombinedOutput()
+						if !strings.HasPrefix(string(out), "REPRODUCED") {
+							ok = false
+							break
+						}
+					}
+					seq = ok
+				}
+			}
 			if ok {
 				confirmedOne = true
 				reported++
 				exit = 1
 				lines = append(lines, fmt.Sprintf("VIOLATION property=%s replay=%s", ck.ID, file))
-				lines = append(lines, "  "+v.Detail)
+				if seq {
+					lines = append(lines, "  (depends on the calls made before it in the same process: the replay re-runs the worker's units up to this one) "+v.Detail)
+				} else {
+					lines = append(lines, "  "+v.Detail)
+				}
 				break
 			}
 		}
@@ -718,6 +751,9 @@ func ReplayMain(file string, times int) int {
 		fmt.Fprintln(os.Stderr, "no replay handler for", id)
 		return 2
 	}
+	if cs["sequence_replay"] == true {
+		return replaySequence(ck, cs, times)
+	}
 	all := true
 	for k := 0; k < times; k++ {
 		ok, detail := ck.Replay(cs)
@@ -731,5 +767,49 @@ func ReplayMain(file string, times int) int {
 	if all {
 		return 1
 	}
+	return 0
+}
+
+// replaySequence re-runs, in this fresh process, the units a worker had executed up to the
+// unit in which the violation was seen, and reports whether a violation with the same
+// signature occurs again.
+func replaySequence(ck *Check, cs map[string]interface{}, times int) int {
+	geti := func(k string) int {
+		var n int
+		fmt.Sscan(fmt.Sprint(cs[k]), &n)
+		return n
+	}
+	unit, shard, nshards := geti("_unit"), geti("_shard"), geti("_nshards")
+	tier, _ := cs["_tier"].(string)
+	sig, _ := cs["sig"].(string)
+	if nshards <= 0 {
+		fmt.Println("NOT-REPRODUCED: no unit sequence recorded")
+		return 0
+	}
+	runtime.GOMAXPROCS(1)
+	debug.SetMaxStack(64 << 20)
+	job := ck.New(tier)
+	ctx := newCtx()
+	ctx.Tier = tier
+	found := ""
+	for i := shard; i <= unit && i < job.NumUnits(); i += nshards {
+		ctx.curUnit = i
+		job.RunUnit(i, ctx)
+		ctx.perSig = map[string]int{} // keep recording
+		for _, v := range ctx.Violations {
+			if v.Sig == sig {
+				found = v.Detail
+			}
+		}
+		ctx.Violations = nil
+		if found != "" {
+			break
+		}
+	}
+	if found != "" {
+		fmt.Printf("REPRODUCED property=%s (after re-running units %d,%d.. up to %d of the worker): %s\n", ck.ID, shard, shard+nshards, unit, found)
+		return 1
+	}
+	fmt.Printf("NOT-REPRODUCED property=%s: re-running the worker's units up to %d did not show signature %q\n", ck.ID, unit, sig)
 	return 0
 }
